@@ -123,3 +123,56 @@ def run(check, ctx, labels):
                                           "self._mac_len ([:self._mac_len] or a mac_len-byte native buffer)")
         if sites < floor:
             raise AnalysisError("anchor vanished: stores to %s.%s (%d < %d)" % (cls, attr, sites, floor))
+
+
+def ocb_pending_aad(check, repo):
+    """OCB: associated data still waiting in the Python cache reaches the native layer before the tag is computed,
+    on every way to the tag (digest()/verify() directly after update(), or after the final encrypt()/decrypt())."""
+    from ..absint import Interp
+    from ..absstate import State
+    from ..absval import ABytes, UNK
+    OCB = "Crypto.Cipher._mode_ocb"
+    mod = repo.module(OCB)
+    cls = repo.cls(mod, "OcbMode")
+    wrong = []
+    n = 0
+    for entry, args, nxt in (("digest", {}, ["update", "encrypt", "decrypt", "digest", "verify"]),
+                             ("verify", {"received_mac_tag": ABytes(16, "bytes")}, ["update", "encrypt", "decrypt", "digest", "verify"]),
+                             ("encrypt", {"plaintext": None}, ["update", "encrypt", "digest"]),
+                             ("decrypt", {"ciphertext": None}, ["update", "decrypt", "verify"])):
+        for pending in (b"", b"A" * 5, b"A" * 15):
+            events = []
+
+            def m_update(i, a, kw, st, node, events=events):
+                events.append(("aad", bytes(a[0]) if isinstance(a[0], (bytes, bytearray)) else a[0], a[1] if len(a) > 1 else None))
+                return None
+            it = Interp(repo, max_depth=4, extra_models={OCB + ".OcbMode._update": m_update})
+            st = State()
+            me = it.new_obj(st, mod, cls, havoc=False)
+            st.heap[me.ident].update({"_cache_A": pending, "_cache_P": b"", "_mac_tag": None, "_mac_len": 16, "_next": list(nxt),
+                                      "_state": it.new_obj(st, label="state"), "block_size": 16})
+            res = it.run(mod, repo.func(mod, "OcbMode." + entry), args, self_obj=me, state=st)
+            n += 1
+            ffi = [e for e in res.events if e.kind == "ffi"]
+            # order of: our recorder calls vs the OCB_digest ffi event
+            dig = [k for k, e in enumerate(res.events) if e.kind == "ffi" and e.name.endswith("OCB_digest")]
+            fed = b"".join(x[1][:x[2]] if isinstance(x[1], bytes) and isinstance(x[2], int) else b"?" for x in events)
+            if entry in ("digest", "verify"):
+                if not dig:
+                    wrong.append("%s() with %d pending bytes: OCB_digest is not called" % (entry, len(pending)))
+                    continue
+                if fed != pending:
+                    wrong.append("%s() directly after update(): %d of the %d pending bytes of associated data reach the native layer "
+                                 "before the tag is computed" % (entry, len(fed), len(pending)))
+            else:
+                # after the final encrypt()/decrypt() the tag is taken later: the pending bytes must either be flushed now
+                # or still be in the cache for _compute_mac_tag
+                left = None
+                for o in res.returns():
+                    left = o.state.heap.get(me.ident, {}).get("_cache_A")
+                if not (fed == pending or (fed == b"" and left == pending)):
+                    wrong.append("final %s(): pending associated data is neither flushed nor kept (%d bytes fed, cache %r)" % (entry, len(fed), left))
+    fn = repo.func(mod, "OcbMode._compute_mac_tag")
+    check.ob("SEG", "SEG|ocb.pending_aad", not wrong, mod.path, fn.lineno,
+             extracted="; ".join(wrong[:3]) if wrong else "%d (entry, pending length) combinations: every pending byte is authenticated" % n,
+             expected="the tag covers all associated data given to update(), also when no encrypt()/decrypt() call follows")
